@@ -170,7 +170,10 @@ PROPS = {
                 "gives it | file tier: a child process runs the real writeFileAtomic and is SIGKILLed at each hook label; the file must hold exactly the "
                 "old or the new bytes | rollback tier: management upsert/delete through the Admin API with a fault injected after the write (secret env "
                 "removed so the reload fails; backlog appearing) must restore the previous bytes and behaviour; non-trivial = old and new differ in >=1 "
-                "battery answer, a crash label actually hit, or an injected fault",
+                "battery answer, a crash label actually hit, or an injected fault | derived-state tier: adaptive backpressure with sustained-growth detection over a generated "
+                "backlog history (4-9 trend samples captured by the store itself), old/new trend_signals and adaptive_backpressure settings 1-2 edits apart (sometimes invalid), "
+                "1-3 ingress requests before and 1-4 after the reload at clock offsets around the 250 ms / 1 s cache lifetimes; every post-reload status must equal that of a process "
+                "started on the configuration in force with the same history and cold caches; non-trivial there = old and new decide the post-reload requests differently",
         "level": "fault_enumeration",
         "assumptions": [SAMPLED, "SIGKILL keeps the page cache: power-loss durability of the rename is not decided", "mid-request mixture is explored for ingress requests only (pull/admin requests have no yield point between their two state reads)",
                         "--watch/SIGHUP delivery itself is not exercised; reloadConfig is called directly"],
@@ -180,6 +183,7 @@ PROPS = {
                   {"engine": "front", "test": "TestProp_C18_MgmtRollback", "quick": 60, "thorough": 600},
                   {"engine": "front", "test": "TestProp_C18_GlobalReload", "quick": 600, "thorough": 40000, "shards": {"quick": 4}},
                   {"engine": "front", "test": "TestProp_C18_RateReload", "quick": 600, "thorough": 40000, "shards": {"quick": 4}},
+                  {"engine": "front", "test": "TestProp_C18_BackpressureReload", "quick": 1200, "thorough": 40000, "shards": {"quick": 4}},
                   {"engine": "front", "test": "TestProp_C18_OutboundReload", "quick": 128, "thorough": 3200, "shards": {"quick": 16, "thorough": 16}, "needs_bins": ["hookaido"]}],
     },
     "C01": {
